@@ -14,6 +14,8 @@ body = B + "\n\n" + "\n".join(parts) + "\n" + E
 if B in d:
     d = d[: d.index(B)] + body + d[d.index(E) + len(E):]
 else:
-    d = d.rstrip() + "\n\n---------------------------------------------------------------------------\n\n## 13. As built (per property)\n\n" + body + "\n"
+    sec = "## 13. As built (per property)\n\nWhat each check actually is, as implemented (sections 1-12 are the plan; where the two differ, this section is right).\n\n" + body + "\n\n---------------------------------------------------------------------------\n\n"
+    k = d.index("## Appendix A.")
+    d = d[:k] + sec + d[k:]
 open(os.path.join(HERE, "DESIGN.md"), "w", encoding="utf-8").write(d)
 print("DESIGN.md: merged", len(parts), "parts")
